@@ -496,8 +496,17 @@ def rule_regret_update(ctx):
             continue
         s = {}
         # chance: child gets p_chance * prob ; expected += prob * payoff
-        for bi, t, e in q.calls_named(g, short(suf)):
-            cs = g.conds(bi)
+        rec_calls = [(bi, t, e, g.conds(bi)) for bi, t, e in q.calls_named(g, short(suf))]
+        # the recursive call may sit in a closure built in the chance arm (`.map(|(prob, next)| recurse(..)).sum()`)
+        for cfn in lib.closures_of(g):
+            par, agg = q.parent_agg(lib, cfn)
+            if par is not g:
+                continue
+            site = [bi for bi, si, st in g.assigns() if st['rv']['r'] == 'agg' and st['rv']['kind'].get('path') == cfn.name]
+            for bi, t, e in q.calls_named(cfn, short(suf)):
+                e2_ = q.resolve_captures(lib, cfn, e)
+                rec_calls.append((bi, t, e2_, g.conds(site[0]) if site else []))
+        for bi, t, e, cs in rec_calls:
             if any(c['kind'] == 'variant' and c['variants'] == ['Chance'] for c in cs):
                 p = e4.try_poly(e[2][3])
                 s['chance-child-reach'] = e4.show_poly(p) if p is None else sorted('%s:%g' % (sorted(a[1][0] if a[0] == 'val' else a[0] for a in m), c) for m, c in p.items())
